@@ -51,12 +51,14 @@ type VC struct {
 	inputs   []WatchTerm
 	assumed  map[string]bool // assumptions recorded for evidence
 	nosafe   bool
+	nondet   bool // the VC abstracts (loop havoc, contract application, effect-free results): models need not be real executions
 	// for replay
 	entryState  *State
 	exitState   *State
 	paramTerms  []Term
 	resultTerms []Term
 	strLits  map[string]Term
+	sentinels []string
 }
 
 func NewVC(ctx *Ctx, fn *ssa.Function, c *FuncContract, fullName string) *VC {
@@ -200,6 +202,47 @@ func (vc *VC) heap(st *State, v Sort) Term {
 func (vc *VC) setHeap(st *State, v Sort, h Term) {
 	vc.heapReg[v] = true
 	st.heaps[v] = vc.Define("h", h)
+}
+
+// ghostVar returns the current value of a declared ghost variable in st.
+func (vc *VC) ghostVar(st *State, gv *GhostVar) (Term, types.Type, error) {
+	env := &SpecEnv{vc: vc, pkg: vc.ctx.typesPkg(gv.PkgPath)}
+	var ty types.Type
+	var srt Sort = SInt
+	switch gv.Type {
+	case "bool":
+		srt = SBool
+		ty = types.Typ[types.Bool]
+	case "mathint":
+	default:
+		t, err := env.resolveTypeName(gv.Type)
+		if err != nil {
+			return Term{}, nil, err
+		}
+		ty = t
+		srt, err = vc.tt.SortOf(t)
+		if err != nil {
+			return Term{}, nil, err
+		}
+	}
+	key := "gv!" + gv.Name
+	if t, ok := st.ghost[key]; ok {
+		return t, ty, nil
+	}
+	name := "G0!" + sanitize(gv.Name)
+	if !vc.heapInit[name] {
+		vc.heapInit[name] = true
+		vc.emitf("(declare-const %s %s)\n", name, srt)
+	}
+	return Term{name, srt}, ty, nil
+}
+
+func (vc *VC) havocGhostVar(st *State, gv *GhostVar) {
+	t, _, err := vc.ghostVar(st, gv)
+	if err != nil {
+		return
+	}
+	st.ghost["gv!"+gv.Name] = vc.Fresh("gv_"+gv.Name, t.Sort)
 }
 
 // mapHeap: maps are identified by rid of their Ref; dom: (Array Int (Array K Bool)), val: (Array Int (Array K V)), len: (Array Int Int)
@@ -346,6 +389,10 @@ func (vc *VC) mergeStates(ins []*State) *State {
 		}
 		if ok {
 			out.ghost[kk] = vc.Define("g", sel(func(s *State) Term { return s.ghost[kk] }))
+		} else if strings.HasPrefix(kk, "gv!") {
+			if gv := vc.ctx.ghostVars[kk[3:]]; gv != nil {
+				out.ghost[kk] = vc.Define("g", sel(func(s *State) Term { t, _, _ := vc.ghostVar(s, gv); return t }))
+			}
 		}
 	}
 	return out
@@ -354,6 +401,9 @@ func (vc *VC) mergeStates(ins []*State) *State {
 // rangeAssumption returns the typing invariant of a value of Go type t.
 func (vc *VC) rangeAssumption(v Term, t types.Type, alloc Term) Term {
 	if _, ok := vc.tt.isOpaque(t); ok {
+		return True
+	}
+	if _, ok := types.Unalias(t).(*types.TypeParam); ok {
 		return True
 	}
 	switch u := t.Underlying().(type) {
